@@ -365,6 +365,7 @@ func (s *SymDense) SymRankK(a Symmetric, alpha float64, x Matrix) {
 		panic(ErrShape)
 	}
 	xMat, aTrans := untransposeExtract(x)
+	s.checkOverlapMatrix(xMat)
 	var g blas64.General
 	if rm, ok := xMat.(*Dense); ok {
 		g = rm.mat
@@ -414,14 +415,8 @@ func (s *SymDense) SymOuterK(alpha float64, x Matrix) {
 			s.CopySym(w)
 			putSymDenseWorkspace(w)
 		} else {
-			switch r := x.(type) {
-			case RawMatrixer:
-				s.checkOverlap(r.RawMatrix())
-			case RawSymmetricer:
-				s.checkOverlap(generalFromSymmetric(r.RawSymmetric()))
-			case RawTriangular:
-				s.checkOverlap(generalFromTriangular(r.RawTriangular()))
-			}
+			xU, _ := untransposeExtract(x)
+			s.checkOverlapMatrix(xU)
 			// Only zero the upper triangle.
 			for i := 0; i < n; i++ {
 				ri := i * s.mat.Stride
